@@ -406,12 +406,52 @@ func (x *seqRun) checkImage(img *simdisk.Image, states []*Model, metas []string,
 				break
 			}
 		}
-		// reuse of half-freed inode numbers: create a few objects and delete them
+		// reuse of half-freed inode numbers: create objects until every number that a
+		// crash left half-freed has been handed out again (the allocator of a restarted
+		// server hands out the lowest free number first), then check the structure:
+		// the creating request must have finished the freeing, and nothing else may
+		// have been marked or leaked on the way
 		if info.HalfFreed > 0 {
-			for i := 0; i < 3; i++ {
-				nm := fmt.Sprintf("zz-reuse%d", i)
-				if _, exists := m.Objs[m.Root].Kids[nm]; !exists {
-					step(&In{K: "create", Obj: rootH, Name: nm, How: 1}, true)
+			// (a request that is handed a half-freed number finishes the freeing, gives the
+			// number back and takes the next one: the allocator has passed a number once a
+			// larger one was handed out)
+			maxPending, maxGot := uint64(0), uint64(0)
+			for _, ino := range info.HalfFreedInos {
+				maxPending = max(maxPending, ino)
+			}
+			made := 0
+			for made < 48 && maxGot <= maxPending && viol == nil {
+				nm := fmt.Sprintf("zz-reuse%d", made)
+				made++
+				if _, exists := m.Objs[m.Root].Kids[nm]; exists {
+					continue
+				}
+				c := step(&In{K: "create", Obj: rootH, Name: nm, How: 1}, true)
+				if c.Status != 0 || len(c.H) < 8 {
+					break
+				}
+				got := uint64(0)
+				for k := 7; k >= 0; k-- {
+					got = got<<8 | uint64(c.H[k])
+				}
+				maxGot = max(maxGot, got)
+			}
+			if maxGot > maxPending {
+				x.res.count("probe_allocator_passed_half_freed_inums", 1)
+			}
+			if viol == nil {
+				simrt.WaitUntil("background shrinker to finish", func() bool { return rig.Srv.VerifShrinkerThreads() == 0 })
+				simrt.Quiesce()
+				if i4, err := fsck(rig, x.nameMax); err != nil {
+					fail("fsck", "fsck:"+err.(*fsckErr).clause, fmt.Sprintf("after recovery and %d creates that reuse half-freed inode numbers: %s", made, err.Error()))
+				} else if err := conservation(i4); err != nil {
+					fail("conservation", "conservation:"+err.(*fsckErr).clause, fmt.Sprintf("after recovery and %d creates that reuse half-freed inode numbers: %s", made, err.Error()))
+				} else if maxGot > maxPending {
+					for _, ino := range i4.HalfFreedInos {
+						if containsU64(info.HalfFreedInos, ino) {
+							fail("conservation", "conservation:half-freed-after-reuse", fmt.Sprintf("inode %d was half-freed at the crash; after recovery the allocator has handed out numbers up to %d, yet the free inode still holds blocks (%s)", ino, maxGot, i4.HalfFreedWhat))
+						}
+					}
 				}
 			}
 		}
